@@ -7,8 +7,10 @@ hand-written model of `proposerPayout`/`validateForPayouts` composed from regene
 import AlgoVerif.Gen.Fees
 import AlgoVerif.Props.C45
 import AlgoVerif.Spec.Arith
+import AlgoVerif.Spec.Fees
+import AlgoVerif.Props.C24Model
 namespace Props.C24
-open AlgoVerif.U64 Gen.Basics Gen.Fees Props.C45
+open AlgoVerif.U64 Gen.Basics Gen.Fees Props.C45 Model.C24
 
 /-- FeeForUsage is the exact quotient/remainder of base·usage·multiplier by 10¹² with the carried residue:
 rounds up unless an earlier round-up already paid for the fraction; flags every 64-bit overflow. -/
@@ -109,26 +111,6 @@ theorem fee_check_iff (paid usage minFee : Nat) (hp : paid < 2^64) (hu : usage <
     available    := sinkBalance −sat MinBalance(sink)          (AccountData.AvailableBalance)
     return MinA(total, available)
 -/
-def proposerPayout (pct fees bonus sinkBal sinkMin : Nat) : Option Nat :=
-  match NewPercent pct with
-  | none => none
-  | some f =>
-    match Fraction_DivvyAlgos f fees with
-    | none => none
-    | some (incentive, _) =>
-      let (total, o) := OAddA incentive bonus
-      if o then none
-      else
-        let (left, o2) := OSubA sinkBal sinkMin
-        let available := if !o2 then left else 0
-        some (MinA total available)
-
-/-- `validateForPayouts`: a claimed payout above the computed maximum is rejected (it may be lower) -/
-def payoutAccepted (claimed pct fees bonus sinkBal sinkMin : Nat) : Bool :=
-  match proposerPayout pct fees bonus sinkBal sinkMin with
-  | none => false
-  | some maxPayout => decide (claimed ≤ maxPayout)
-
 theorem payout_exact (pct fees bonus sinkBal sinkMin : Nat) (hpct : pct ≤ 100)
     (hf : fees < 2^64) (hb : bonus < 2^64) (hs : sinkBal < 2^64) (hm : sinkMin < 2^64)
     (hno : fees * pct / 100 + bonus < 2^64) :
@@ -187,6 +169,30 @@ theorem compute_load_bounded (blockSize maxSize : Int)
   split
   · exact Nat.le_refl _
   · exact Nat.min_le_right _ _
+
+/-! The same statements against `Spec.Fees` (what the correspondence driver evaluates). -/
+theorem fee_check_spec (paid usage minFee : Nat) (hp : paid < 2^64) (hu : usage < 2^64) (hm : minFee < 2^64) :
+    (!CheckGroupFees paid usage minFee) = Spec.Fees.feeOk paid usage minFee := by
+  unfold Spec.Fees.feeOk
+  have := fee_check_iff paid usage minFee hp hu hm
+  by_cases h : minFee * usage ≤ paid * 1000000
+  · simp [this.mpr h, h]
+  · have : CheckGroupFees paid usage minFee = true := by
+      cases hc : CheckGroupFees paid usage minFee
+      · exact absurd (this.mp hc) h
+      · rfl
+    simp [this, h]
+
+theorem payout_spec (pct fees bonus sinkBal sinkMin : Nat) (hpct : pct ≤ 100)
+    (hf : fees < 2^64) (hb : bonus < 2^64) (hs : sinkBal < 2^64) (hm : sinkMin < 2^64)
+    (hno : fees * pct / 100 + bonus < 2^64) :
+    proposerPayout pct fees bonus sinkBal sinkMin = Spec.Fees.payout pct fees bonus sinkBal sinkMin := by
+  rw [payout_exact pct fees bonus sinkBal sinkMin hpct hf hb hs hm hno]
+  unfold Spec.Fees.payout
+  have : fees * pct / 100 + bonus < Spec.Fees.M := by
+    have e : (2:Nat)^64 = Spec.Fees.M := by decide
+    rw [← e]; exact hno
+  rw [if_pos this]
 
 -- Non-vacuity
 example : CheckGroupFees 1000 1000000 1000 = false := by decide
